@@ -83,7 +83,7 @@ def hugr_features(pkg) -> dict:
             elif isinstance(op, ops.Conditional):
                 f["conditionals"] += 1
             elif isinstance(op, (ops.ExtOp, ops.Custom)):
-                if op.name().endswith("drop"):
+                if op.name().startswith("tket.guppy.drop"):
                     f["drop_ops"] += 1
     return f
 
@@ -161,7 +161,15 @@ FEATURE_RULES = {
 def run(ctx) -> dict:
     from vlib import gen01
     progs = gen01.programs(ctx.tier)
+    det = gen01.install_deterministic_worklist()
     items = [(i, p.src, p.entry, p.exp) for i, p in enumerate(progs)]
+    # warm guppylang's caches in the parent (first check costs ~4 s) so that forked
+    # workers inherit them: the first program of every family
+    seen = set()
+    for it, p in zip(items, progs):
+        if p.family not in seen:
+            seen.add(p.family)
+            run_one(it)
     recs = ctx.pmap(run_one, items, chunk=24)
     counts: dict = {}
     by_family: dict = {}
@@ -237,6 +245,7 @@ def run(ctx) -> dict:
         "by_family": by_family,
         "bound": "quick: <=3 statements (+fixed epilogue), nesting <=2" if ctx.quick
                  else "thorough: <=4 statements (+fixed epilogue), nesting <=3",
+        "deterministic_worklist_installed": det,
         "exhaustive": True,
     }
     for k, v in shape.items():
